@@ -237,6 +237,9 @@ func (m *simMaster) serve(c net.Conn, sc *simConn, refuse string) {
 			sc.mu.Lock()
 			sc.queries = append(sc.queries, string(p[1:]))
 			sc.mu.Unlock()
+			if refuse == "close-on-query" {
+				return // the connection dies while the checksum query is in flight: no reply at all
+			}
 			if refuse == "query-err" {
 				writePacket(c, 1, errPacket(1193, "Unknown system variable 'binlog_checksum'"))
 				continue
